@@ -96,7 +96,8 @@ def histories(draw, big=False, want_logs=False, transports=('pty', 'pty', 'fd', 
             if nbig > 1:
                 continue
         ops.append(op)
-    case = {'transport': transport, 'enc': enc, 'ops': ops, 'maxread': draw(st.sampled_from([2000, 2000, 3]))}
+    case = {'transport': transport, 'enc': enc, 'ops': ops, 'maxread': draw(st.sampled_from([2000, 2000, 3])),
+            'sock_timeout': draw(st.sampled_from([None, 5.0])), 'small_sndbuf': draw(st.booleans())}
     if want_logs:
         case['logs'] = sorted(draw(st.sets(st.sampled_from(['logfile', 'logfile_read', 'logfile_send']),
                                           min_size=draw(st.sampled_from([0, 1, 2, 2, 3])), max_size=3)))
@@ -176,7 +177,8 @@ def run_history(case, logs=None):
     # the model accumulated log entries for reads up front; rebuild in operation order below
     mo.log_read, mo.log_all = [], []
     mo.rencoder = codecs.getincrementalencoder(enc)() if enc else None
-    sess = dialogue.Session(case['transport'], chunks, encoding=enc, timeout=30, maxread=case.get('maxread', 2000))
+    sess = dialogue.Session(case['transport'], chunks, encoding=enc, timeout=30, maxread=case.get('maxread', 2000),
+                            sock_timeout=case.get('sock_timeout'), small_sndbuf=case.get('small_sndbuf', False))
     reclogs = {}
     try:
         child = sess.child
